@@ -24,6 +24,7 @@ EXHAUSTIVE = {"quick": False, "thorough": False}
 def corpus():
     return [
         "tl|id|[1,2,3,4,5]|ss 4 0 -2 [8,9];ds N N -2;im 0;in -9 7;po 5;rm 7;so",
+        "tl|id|[4,1,5,3,2,0,7]|sk 2 1;sk 1 1;sk 1 0;sk 3 1;sk 0 1",
         "tl|id|[1,2,3,4,5,6,7]|ds 5 0 -2;ss N N -3 [1,2];ds 0 4 3",
         "tl|id|[1,2,3]|ss 5 2 N [9];ss N N -1 [1,2,3,4];di -3;ss 2 1 1 []",
         "tl|mod7|[9,8]|ss N N 2 [15];si -1 20;ap 7",
@@ -52,6 +53,138 @@ def generate(rng, tier):
         yield S.random_history(rng, "tl")
     for _ in range(nh // 4):
         yield S.random_history(rng, "pl", validators=["id"])
+    yield from malformed_cases(rng, nh // 2)
+
+
+# ---------------------------------------------------------------------------
+# malformed / unusual-argument stream (oracle only): arguments that are not
+# plain lists or ints — falsy non-iterables, one-shot iterators, strings,
+# numpy arrays, objects with __index__, bools, huge ints …
+# ---------------------------------------------------------------------------
+
+def _weird(name):
+    import numpy as np
+
+    class Idx:
+        def __init__(self, v):
+            self.v = v
+
+        def __index__(self):
+            if isinstance(self.v, str):
+                raise ValueError("bad index")
+            return self.v
+    table = {
+        "none": lambda: None, "zero": lambda: 0, "false": lambda: False, "true": lambda: True, "fzero": lambda: 0.0,
+        "float1": lambda: 1.0, "emptystr": lambda: "", "str": lambda: "ab", "tuple": lambda: (4, 5), "emptytuple": lambda: (),
+        "gen": lambda: (x for x in [7, 8]), "emptygen": lambda: iter([]), "range0": lambda: range(0), "range3": lambda: range(3),
+        "dict": lambda: {1: 2}, "emptydict": lambda: {}, "set": lambda: {3}, "list": lambda: [1, 2], "emptylist": lambda: [],
+        "np0": lambda: np.zeros(1, dtype=int), "npa0": lambda: np.array([0]), "np3": lambda: np.arange(3),
+        "npempty": lambda: np.array([], dtype=int), "npint": lambda: np.int64(1), "idx2": lambda: Idx(2), "idxneg": lambda: Idx(-1),
+        "idxraise": lambda: Idx("x"), "bigint": lambda: 10 ** 30, "negbig": lambda: -10 ** 30, "int1": lambda: 1, "intm1": lambda: -1,
+    }
+    return table[name]()
+
+
+WEIRD_ITER = ["none", "zero", "false", "fzero", "emptystr", "str", "tuple", "emptytuple", "gen", "emptygen", "range0", "range3",
+              "dict", "emptydict", "set", "list", "emptylist", "np0", "npa0", "np3", "npempty"]
+WEIRD_IDX = ["none", "false", "true", "fzero", "float1", "npint", "idx2", "idxneg", "idxraise", "bigint", "negbig", "int1", "intm1", "str"]
+
+
+def malformed_cases(rng, n):
+    import json
+    for _ in range(n):
+        init = [rng.choice([0, 1, 2, 3, 5]) for _ in range(rng.randint(0, 4))]
+        ops = []
+        for _ in range(rng.randint(1, 4)):
+            m = rng.choice(["extend", "extend", "iadd", "setslice", "setitem", "delitem", "insert", "pop", "imul"])
+            if m in ("extend", "iadd"):
+                a = rng.choice([w for w in WEIRD_ITER if not (m == "iadd" and w.startswith("np"))])
+                ops.append([m, a])
+            elif m == "setslice":
+                ops.append([m, rng.choice([None, 0, 1, -1]), rng.choice([None, 1, 2, 5]), rng.choice([None, 1, 2, -1]), rng.choice(WEIRD_ITER)])
+            elif m == "imul":
+                ops.append([m, rng.choice(["true", "false", "npint", "idx2", "fzero", "none", "int1", "bigint"])])
+            elif m in ("setitem", "insert"):
+                ops.append([m, rng.choice(WEIRD_IDX), 9])
+            else:
+                ops.append([m, rng.choice(WEIRD_IDX)])
+        yield "#" + json.dumps({"init": init, "ops": ops}, separators=(",", ":"))
+
+
+def _apply_weird(l, op):
+    m = op[0]
+    if m == "extend":
+        l.extend(_weird(op[1]))
+    elif m == "iadd":
+        l += _weird(op[1])
+    elif m == "setslice":
+        l[slice(op[1], op[2], op[3])] = _weird(op[4])
+    elif m == "setitem":
+        l[_weird(op[1])] = op[2]
+    elif m == "delitem":
+        del l[_weird(op[1])]
+    elif m == "insert":
+        l.insert(_weird(op[1]), op[2])
+    elif m == "pop":
+        return l.pop(_weird(op[1]))
+    elif m == "imul":
+        w = _weird(op[1])
+        if isinstance(w, int) and abs(w) > 10 ** 6:
+            raise OverflowError("skipped")
+        l *= w
+    return None
+
+
+def run_malformed(c):
+    from traits.trait_list_object import TraitList
+    events = []
+    tl = TraitList(list(c["init"]), notifiers=[lambda t, i, r, a: events.append((i, list(r), list(a)))])
+    plain = list(c["init"])
+    hits, tags, outs = [], set(), []
+    for op in c["ops"]:
+        snap = list(tl)
+        del events[:]
+        pe = te = None
+        pr = tr = None
+        try:
+            pr = _apply_weird(plain, op)
+        except Exception as e:
+            pe = e
+        try:
+            tr = _apply_weird(tl, op)
+        except Exception as e:
+            te = e
+        sig = "%s(%s)" % (op[0], op[-1] if op[0] in ("extend", "iadd", "setslice", "imul") else op[1])
+        tags.add("mal:" + op[0])
+        after = list(tl)
+        pn = type(pe).__name__ if pe is not None else None
+        tn = type(te).__name__ if te is not None else None
+        if pn != tn:
+            hits.append(_hit("unusual-arg-exception-differs:" + sig, "list: %s, TraitList: %s" % (pn, tn)))
+            plain = list(after)
+        elif after != plain:
+            hits.append(_hit("unusual-arg-contents-differ:" + sig, "contents differ from builtin list", expected=plain, observed=after))
+            plain = list(after)
+        elif pr != tr:
+            hits.append(_hit("unusual-arg-return-differs:" + sig, "return value differs"))
+        if te is not None and (after != snap or events):
+            hits.append(_hit("failed-op-mutated:" + sig, "failing operation changed the list or notified"))
+        if len(events) > 1:
+            hits.append(_hit("several-events:" + sig, "%d events" % len(events)))
+        if after != snap and len(events) != 1:
+            hits.append(_hit("change-without-event:" + sig, "contents changed, %d events" % len(events), before=snap, after=after))
+        for ix, removed, added in events:
+            try:
+                rep = py_replay(snap, ix, removed, added)
+            except Exception as e:
+                rep = "replay raised " + type(e).__name__
+            if rep != after:
+                hits.append(_hit("replay-law:" + sig, "event does not replay to the contents", snapshot=snap,
+                                 event=[repr(ix), repr(removed), repr(added)], after=repr(after)))
+            if not isinstance(ix, slice) and not (type(ix) is int and 0 <= ix <= len(snap)):
+                hits.append(_hit("index-normal-form:" + sig, "index %r is not a plain int in 0..len" % (ix,)))
+        outs.append("err " + tn if tn else "ok [" + ",".join(str(x) for x in after) + "]")
+    return " ; ".join(outs), hits, tags
 
 
 def _hit(sig, what, **kw):
@@ -76,6 +209,9 @@ def py_replay(snap, index, removed, added):
 
 def run_impl(case):
     from traits.trait_list_object import TraitList
+    if case.startswith("#"):
+        import json
+        return run_malformed(json.loads(case[1:]))
     kind, vspec, init, ops = case.split("|")
     init = S.parse_list(init)
     ops = [S.parse_op(o) for o in ops.split(";") if o.strip()]
